@@ -26,6 +26,7 @@ class Result:
         self.samples = []
         self.errors = []
         self.nviol_total = 0
+        self.crashes = {}   # sig -> (cmd, env, timeout): harness processes that died while running the real code
 
     def feed(self, text):
         for line in text.splitlines():
@@ -59,6 +60,7 @@ class Result:
         self.sets |= o.sets
         self.samples += o.samples
         self.errors += o.errors
+        self.crashes.update(o.crashes)
 
 
 def run_cmd(cmd, timeout=None, env=None, stdin=None):
@@ -73,17 +75,53 @@ def run_cmd(cmd, timeout=None, env=None, stdin=None):
         return -999, (ex.stdout or b"").decode(errors="replace"), "TIMEOUT"
 
 
+def crash_kind(rc, err):
+    """Classify an abnormal exit of a harness process; None = not attributable to the code under test."""
+    if rc == -999:
+        return "timeout"
+    if "AddressSanitizer" in err or "LeakSanitizer" in err or "runtime error:" in err or "ThreadSanitizer" in err:
+        return "sanitizer"
+    if rc < 0:
+        return "signal%d" % (-rc)
+    if "terminate called" in err:
+        return "terminate"
+    return None
+
+
+def crash_summary(err):
+    for l in err.splitlines():
+        if "SUMMARY:" in l or "runtime error:" in l or "terminate called" in l or "what():" in l:
+            return l.strip()[:400]
+    return err.strip()[-300:].replace("\n", " ")
+
+
+def replay_crash(cmd, env, timeout):
+    rc, out, err = run_cmd(cmd, timeout=(timeout * 2 if timeout else None), env=env)
+    k = crash_kind(rc, err) if rc != 0 else None
+    return (k is not None), (k or "")
+
+
 def run_slices(binary, args, nslices=None, timeout=None, env=None, jobs=None):
     """Run `binary args... <i> <n>` for every slice i in parallel, merge the output."""
     nslices = nslices or NCPU
     res = Result()
 
     def one(i):
-        rc, out, err = run_cmd([binary] + list(args) + [str(i), str(nslices)], timeout=timeout, env=env)
+        cmd = [binary] + list(args) + [str(i), str(nslices)]
+        rc, out, err = run_cmd(cmd, timeout=timeout, env=env)
         r = Result()
         r.feed(out)
         if rc != 0:
-            r.errors.append("slice %d of %s %s exited %s: %s" % (i, os.path.basename(binary), " ".join(args), rc, err[-2000:]))
+            kind = crash_kind(rc, err)
+            if kind is None:
+                r.errors.append("slice %d of %s %s exited %s: %s" % (i, os.path.basename(binary), " ".join(args), rc, err[-2000:]))
+            else:
+                # the process died while executing the real code (sanitizer abort, signal, hang): that is an observation about
+                # the code under test, reported as a violation (and replayed like any other) rather than as a harness error
+                sig = "CRASH|%s|%s|%d/%d|%s" % (os.path.basename(binary), " ".join(args), i, nslices, kind)
+                r.viol[sig] = "the harness process died while executing the library code (%s): %s" % (kind, crash_summary(err))
+                r.crashes[sig] = (cmd, env, timeout)
+                r.sum["slices_lost_to_crash"] = 1
         return r
 
     with ThreadPoolExecutor(max_workers=jobs or NCPU) as ex:
@@ -153,7 +191,15 @@ class Check:
         reported = []
         cap = 10
         for sig in fresh[:cap]:
-            if replay_fn is not None:
+            if sig in r.crashes:
+                self.exhaustive = False
+                a = replay_crash(*r.crashes[sig])
+                b = replay_crash(*r.crashes[sig])
+                if a != b or not a[0]:
+                    sys.stderr.write("HARNESS-ERROR property=%s harness crash did not replay deterministically: %s (%r vs %r)\n" % (self.prop, sig, a, b))
+                    self._write_evidence(0, broken=True)
+                    sys.exit(2)
+            elif replay_fn is not None:
                 a = replay_fn(sig)
                 b = replay_fn(sig)
                 if a != b or not a[0]:
@@ -167,8 +213,12 @@ class Check:
             name = hashlib.sha1(sig.encode()).hexdigest()[:16] + ".json"
             path = os.path.join(OUTDIR, "replay", self.prop, name)
             with open(path, "w") as fh:
-                json.dump({"property": self.prop, "sig": sig, "detail": r.viol[sig],
-                           "replay": "python3 /verif/check.py %s --replay %s" % (self.prop, path)}, fh, indent=1)
+                rec = {"property": self.prop, "sig": sig, "detail": r.viol[sig],
+                       "replay": "python3 /verif/check.py %s --replay %s" % (self.prop, path)}
+                if sig in r.crashes:
+                    cmd, env, timeout = r.crashes[sig]
+                    rec["crash"] = {"binary": os.path.basename(cmd[0]), "args": cmd[1:], "env": env or {}, "timeout": timeout}
+                json.dump(rec, fh, indent=1)
             lines.append("VIOLATION property=%s replay=%s" % (self.prop, path))
             sys.stderr.write("  violation %s :: %s\n" % (sig, r.viol[sig][:400]))
         if len(fresh) > cap:
